@@ -14,7 +14,9 @@ CONSTANTS Batch,       \* elements per batch
           SecDays,     \* day numbers of which every second is enumerated
           NumTo,       \* every n in 0 .. NumTo, for each of the three functions
           RandTs,      \* seeded random batches of instants
-          RandNum      \* seeded random batches of 64-bit values per function
+          RandNum,     \* seeded random batches of 64-bit values per function
+          WireTo,      \* body sizes 0 .. WireTo and chunk sizes 8 .. WireTo of real responses
+          WireBig      \* larger sizes around powers of ten / sixteen (a set)
 
 SeedBase == IF "VERIF_SEED" \in DOMAIN IOEnv THEN atoi(IOEnv.VERIF_SEED) ELSE 1
 Fns == {"itoa", "hexized", "hexized_bytes"}
@@ -57,9 +59,15 @@ NumLists == {[kind |-> "num-list", fn |-> f, vals |-> BoundarySeq] : f \in Fns}
 
 NumRandom == {[kind |-> "num-random", fn |-> f, seed |-> 1000 * SeedBase + k, n |-> Batch] : f \in Fns, k \in 1..RandNum}
 
+\* real responses: Content-Length / Date header, chunk-size line (the formatters as used on the wire)
+AsSeq(S) == LET RECURSIVE Build(_) Build(T) == IF T = {} THEN <<>> ELSE LET x == CHOOSE x \in T : \A z \in T : x <= z IN <<x>> \o Build(T \ {x})
+            IN Build(S)
+WireBatches == {[kind |-> "wire-cl",    sizes |-> [j \in 1..(WireTo + 1) |-> j - 1] \o AsSeq(WireBig)],
+                [kind |-> "wire-chunk", sizes |-> [j \in 1..(WireTo - 7) |-> j + 7] \o AsSeq(WireBig)]}
+
 PrintAll(S) == \A s \in S : PrintT(ToJson(s))
 ASSUME /\ PrintAll(DayBatches) /\ PrintAll(YearBatches) /\ PrintAll(SecBatches) /\ PrintAll(TsRandom)
-       /\ PrintAll(NumRanges) /\ PrintAll(NumLists) /\ PrintAll(NumRandom)
+       /\ PrintAll(NumRanges) /\ PrintAll(NumLists) /\ PrintAll(NumRandom) /\ PrintAll(WireBatches)
 
 GSpec == Init /\ [][FALSE]_vars
 =============================================================================
